@@ -255,4 +255,25 @@ def npLogical (op : Op) (x y : Bool) : Bool :=
   | .not_ => !x
   | _ => false
 
+/-! ### Scoping of the settings (stack discipline)
+
+`operator_overloading` blocks nest dynamically: a `with` block, a call of a decorated function
+(including a decorated function that calls itself, or functions sharing one decorator object calling
+each other), a generator suspended inside a block.  Whatever the form, the settings in force at a
+program point are those of the innermost block that is still open, and `none` outside all blocks. -/
+
+inductive Scoped
+  | probe                                      -- operators are applied here
+  | block (s : Bool × Bool) (body : List Scoped)
+
+mutual
+/-- the settings in force at every probe, in execution order, starting with `cur` in force -/
+def Scoped.probes (cur : Option (Bool × Bool)) : Scoped → List (Option (Bool × Bool))
+  | .probe => [cur]
+  | .block s body => probesList (some s) body
+def probesList (cur : Option (Bool × Bool)) : List Scoped → List (Option (Bool × Bool))
+  | [] => []
+  | x :: xs => x.probes cur ++ probesList cur xs
+end
+
 end Dispatch
